@@ -1142,12 +1142,20 @@ class Evaluator:
             try:
                 outs = []
                 for side in (True, False):
-                    f2 = pick_fn(fn, side)
-                    if f2[0] == "call":
-                        f2 = self.call_term(f2[1], expand(f2[2]), f2[3], fr, node)
-                    a2 = expand(tuple(pick(a, side) for a in args))
-                    k2 = tuple((k, pick(v, side)) for k, v in kwargs)
-                    outs.append(self.call_term(f2, a2, k2, fr, node))
+                    # effects of either alternative happen only under the condition (or its negation)
+                    saved_guards = fr.guards if fr is not None else None
+                    if fr is not None:
+                        fr.guards = fr.guards + ((c, side),)
+                    try:
+                        f2 = pick_fn(fn, side)
+                        if f2[0] == "call":
+                            f2 = self.call_term(f2[1], expand(f2[2]), f2[3], fr, node)
+                        a2 = expand(tuple(pick(a, side) for a in args))
+                        k2 = tuple((k, pick(v, side)) for k, v in kwargs)
+                        outs.append(self.call_term(f2, a2, k2, fr, node))
+                    finally:
+                        if fr is not None:
+                            fr.guards = saved_guards
             finally:
                 self._distributing -= 1
             return ("ifexp", c, outs[0], outs[1])
